@@ -28,6 +28,7 @@ class Pool:
         self.channels = collections.OrderedDict()  # (src,dest,prio) -> deque[(mid,msg)]
         self.urgent = collections.OrderedDict()  # dest -> deque[(src,msg,mid)]
         self.started = set()
+        self.start_step = {}
         self.nostart = set()  # computations the scheduler must not start by itself
         self.ticks = []  # [handle, period, cb, owner]
         self.trace = []  # choice indexes (replayable)
@@ -155,6 +156,10 @@ class Pool:
                 return s[1]
             return None
 
+        # weak fairness: every bias is dropped for one step with probability 0.1, so that a non
+        # terminating algorithm cannot starve a computation or a start forever.
+        if rng.random() < 0.1:
+            return rng.choice(idxs)
         if b == "starve":
             pref = [i for i in idxs if dest_of(steps[i]) != self.bias_target]
             return rng.choice(pref or idxs)
@@ -202,6 +207,7 @@ class Pool:
         try:
             if kind == "start":
                 self.started.add(s[1])
+                self.start_step[s[1]] = self.steps
                 self.current = s[1]
                 self.comps[s[1]].start()
             elif kind == "urgent":
